@@ -1,10 +1,26 @@
 use crate::common::*;
 
-#[derive(Deserialize, Serialize, Debug, Eq, PartialEq, Copy, Clone)]
+#[derive(Serialize, Debug, Eq, PartialEq, Copy, Clone)]
 #[serde(transparent)]
 pub(crate) struct Md5Digest {
   #[serde(with = "SerHex::<serde_hex::Strict>")]
   bytes: [u8; 16],
+}
+
+impl<'de> Deserialize<'de> for Md5Digest {
+  fn deserialize<D>(deserializer: D) -> Result<Self, D::Error>
+  where
+    D: Deserializer<'de>,
+  {
+    let text = String::deserialize(deserializer)?;
+
+    let mut bytes = [0; 16];
+
+    hex::decode_to_slice(&text, &mut bytes)
+      .map_err(|error| D::Error::custom(format!("invalid MD5 digest `{text}`: {error}")))?;
+
+    Ok(Self { bytes })
+  }
 }
 
 impl Md5Digest {
